@@ -164,6 +164,23 @@ def switch_programs():
             yield p2, vars_, 'switch+define:%d' % i
 
 
+def restore_programs():
+    """what a local definition / loop variable hides is back afterwards: the name is initially unbound, bound
+    to None or bound to a value (symbolic choice); probes inside and after the element"""
+    def probe(n, tag):
+        return {'tag': 'u', 'children': [tag + '=', {'interp': {'pipe': [py('show(%s)' % n), py("'U'")]}}]}
+    d = {'tag': 'p', 'indent': 2, 'define': [['local', 'd', py("rec('d', dv)")]], 'children': [probe('d', 'in')]}
+    yield [d, probe('d', 'after')], [['dv', 'int', 5], ['d', 'maybe3', 0]], 'restore:define'
+    r = {'tag': 'p', 'indent': 2, 'repeat': ['x', py("rec('r', seq)")], 'children': [probe('x', 'in')]}
+    yield [r, probe('x', 'after')], [['seq', 'lenN', 1], ['x', 'maybe3', 0]], 'restore:repeat'
+    dr = {'tag': 'p', 'indent': 2, 'define': [['local', 'x', py("rec('d', dv)")]], 'repeat': ['x', py("rec('r', seq)")],
+          'children': [probe('x', 'in')]}
+    yield [dr, probe('x', 'after')], [['dv', 'int', 5], ['seq', 'lenN', 1], ['x', 'maybe3', 0]], 'restore:define+repeat'
+    c = {'tag': 'p', 'indent': 2, 'define': [['local', 'd', py("rec('d', dv)")]], 'condition': py("rec('c', cv)"),
+         'children': [probe('d', 'in')]}
+    yield [c, probe('d', 'after')], [['dv', 'int', 5], ['cv', 'bool', 0], ['d', 'maybe3', 0]], 'restore:define+condition'
+
+
 def plan(tier, seed):
     rnd = random.Random(seed)
     quick = tier == 'quick'
@@ -199,6 +216,9 @@ def plan(tier, seed):
             e2 = dict(el)
             e2['order'] = order
             jobs.append({'prog': wrap_root(e2), 'vars': vars_, 'label': label})
+    for kids, vars_, label in restore_programs():
+        jobs.append({'prog': {'tag': 'div', 'children': ['A'] + kids + ['B'], 'close_indent': 0}, 'vars': vars_,
+                     'label': label})
     mut_cfg1 = {'prog': wrap_root(element(True, None, False, ('content', 'text'), None, None)[0]),
                 'vars': [['dv', 'int', 5], ['tv', 'cls', 2]]}
     el_cr, vars_cr = element(False, 'bool', True, None, None, None)
@@ -223,7 +243,7 @@ def plan(tier, seed):
                    'chameleon.utils:Scope'],
         bounds=('programs enumerated: %d templates = one statement-carrying element (every subset of '
                 'define/condition/repeat/content|replace/omit-tag/attributes whose binding space is <= %d '
-                'classes) in %s attribute order(s), 7x6 depth-2 nestings, 7 switch/case families; bindings '
+                'classes) in %s attribute order(s), 7x6 depth-2 nestings, 7 switch/case families, 4 programs probing that the hidden outer binding (unbound / None / value) of a defined or loop variable is back after the element; bindings '
                 'decided by the solver per program: condition/omit flags bool, value class index over '
                 '[None, default, False, True, 0, 2, "", "a<"], sequence length 0..3 or None, define value int '
                 'in [0,4). Outside: depth > 2, case together with repeat/condition-false on one element '
